@@ -17,6 +17,8 @@ import (
 func init() {
 	zzsv.Register("ZZ_C17_MinMax", ZZ_C17_MinMax)
 	zzsv.Register("ZZ_C17_Between", ZZ_C17_Between)
+	zzsv.Register("ZZ_C17_MinMaxWide", ZZ_C17_MinMaxWide)
+	zzsv.Register("ZZ_C17_BetweenWide", ZZ_C17_BetweenWide)
 	zzsv.Register("ZZ_C17_Sort", ZZ_C17_Sort)
 	zzsv.Register("ZZ_C17_SplitJoin", ZZ_C17_SplitJoin)
 	zzsv.Register("ZZ_C17_Convert", ZZ_C17_Convert)
@@ -35,8 +37,10 @@ func zzNumFloat(sv *zzsv.T, name string) float64 {
 func zzNumber(sv *zzsv.T, name string) zv {
 	if sv.Choice(name+".isfloat", 2) == 0 {
 		i := sv.Int64(name)
-		sv.Assume(i >= int64(-sv.Param("num.lo", 99, 9999)))
-		sv.Assume(i <= int64(sv.Param("num.hi", 999, 99999)))
+		if !zzWideInts {
+			sv.Assume(i >= int64(-sv.Param("num.lo", 99, 9999)))
+			sv.Assume(i <= int64(sv.Param("num.hi", 999, 99999)))
+		}
 		return zInt(i)
 	}
 	return zFloat(zzNumFloat(sv, name+".f"))
@@ -54,6 +58,23 @@ func zzNumEq(a, b zv) bool {
 		return a.i == b.i
 	}
 	return zzAsFloat(a) == zzAsFloat(b)
+}
+
+// zzWideInts: integers range over all of int64 (no digit bound). Comparisons
+// by printed form would then be beyond the decimal model, so each numeric
+// harness runs twice: digit-bounded and wide.
+var zzWideInts bool
+
+func ZZ_C17_MinMaxWide(sv *zzsv.T) {
+	zzWideInts = true
+	defer func() { zzWideInts = false }()
+	ZZ_C17_MinMax(sv)
+}
+
+func ZZ_C17_BetweenWide(sv *zzsv.T) {
+	zzWideInts = true
+	defer func() { zzWideInts = false }()
+	ZZ_C17_Between(sv)
 }
 
 // ZZ_C17_MinMax: min/max return the numerically smaller/larger argument.
